@@ -3,7 +3,8 @@ from contracts.worker import UNITS_SINGLE, UNITS_BATCH, ASSUMPTIONS as W_ASSUMPT
 from contracts.server import GatherUnit, AGatherUnit
 from contracts.servlet import UNITS_FORWARD, UNITS_DEQUEUE
 from contracts.c15 import UNITS as C15_UNITS
-UNITS = list(UNITS_SINGLE) + list(UNITS_BATCH) + list(UNITS_FORWARD) + list(UNITS_DEQUEUE) + [GatherUnit, AGatherUnit] + list(C15_UNITS)
+from contracts.ctors import SERVLET_CTORS
+UNITS = [u for u in SERVLET_CTORS if u.qual == 'EnsembleServlet.__init__'] + list(UNITS_SINGLE) + list(UNITS_BATCH) + list(UNITS_FORWARD) + list(UNITS_DEQUEUE) + [GatherUnit, AGatherUnit] + list(C15_UNITS)
 ASSUMPTIONS = tuple(W_ASSUMPTIONS)
 NOT_DECIDED = ('traceback text content beyond "contains what format_exception returned" (C15)',)
 BOUNDED = list(__import__('contracts.c15', fromlist=['BOUNDED']).BOUNDED)        # the EnsembleError constructor/pickling branch of C15 (shared units)
